@@ -89,6 +89,12 @@ Definition cache_model (c : bool * list cop) : list (cout * nat) :=
                 dict(op='goc', sub=[], key='key', comp=None, force=False), dict(op='goc', sub=[], key='key', comp=[None], force=False),
                 dict(op='plant', sub=[], key='k2', other='key', value=1), dict(op='goc', sub=[], key='k2', comp=[1], force=False),
                 dict(op='get', sub=[], key='k2'), dict(op='goc', sub=[], key='k2', comp=[2], force=True)]),
+            # keys that are canonically equivalent as unicode texts are different keys
+            dict(allow_nones=True, ops=[
+                dict(op='goc', sub=[], key='caf\u00e9', comp=[1], force=False), dict(op='get', sub=[], key='cafe\u0301'),
+                dict(op='goc', sub=[], key='cafe\u0301', comp=[2], force=False), dict(op='get', sub=[], key='caf\u00e9'),
+                dict(op='get', sub=[], key='cafe\u0301'), dict(op='goc', sub=['s'], key='\u212b', comp=[3], force=False),
+                dict(op='goc', sub=['s'], key='\u00c5', comp=[4], force=False), dict(op='get', sub=['s'], key='\u212b')]),
             dict(allow_nones=False, ops=[
                 dict(op='goc', sub=[], key='k', comp=[None], force=False), dict(op='get', sub=[], key='k'),
                 dict(op='goc', sub=['s'], key='k', comp=[None], force=False), dict(op='get', sub=['s'], key='k'),
@@ -292,7 +298,10 @@ Definition array_cache_model (c : bool * list cop) : list (cout * nat) :=
             dict(op='goc', sub=[], key='k', comp=['A0'], force=False), dict(op='goc', sub=[], key='k', comp=None, force=True),
             dict(op='get', sub=[], key='k'), dict(op='damage', sub=[], key='k', how='truncate', at=20),
             dict(op='get', sub=[], key='k'), dict(op='goc', sub=['s'], key='k', comp=['A3'], force=False),
-            dict(op='plant', sub=[], key='k2', other='k', value='A2'), dict(op='get', sub=[], key='k2')])]
+            dict(op='plant', sub=[], key='k2', other='k', value='A2'), dict(op='get', sub=[], key='k2')]),
+            dict(allow_nones=True, ops=[
+                dict(op='goc', sub=[], key='caf\u00e9', comp=['A0'], force=False), dict(op='get', sub=[], key='cafe\u0301'),
+                dict(op='goc', sub=[], key='cafe\u0301', comp=['A1'], force=False), dict(op='get', sub=[], key='caf\u00e9')])]
 
     def gen(self, rng, tier):
         out = []
